@@ -17,6 +17,7 @@ def CmdSafe (w : World) : Cmd → Prop
   | .hold d => 0 ≤ d
   | .timerAdd _ d _ => 0 ≤ d
   | .timerSet _ d _ => 0 ≤ d
+  | .timerAddOf _ d _ => 0 ≤ d
   | .schedUser _ d _ => 0 ≤ d
   | .acquire r => r < w.res.size
   | _ => True
@@ -271,6 +272,16 @@ theorem SafeR.execCmd (h : Safe (isKey p) w) (hp : p < w.procs.size) (c : Cmd) (
     · exact SafeR.skip h
     · exact SafeR.ret (h.timerCancel_fst _ _) _ _
   | timersClear => simp only [Sim.execCmd]; exact SafeR.ret (h.timersClear p) _ _
+  | timersClearOf q =>
+    simp only [Sim.execCmd]
+    split
+    · exact SafeR.skip h
+    · exact SafeR.ret (h.timersClear q) _ _
+  | timerAddOf q d sig =>
+    simp only [Sim.execCmd]
+    split
+    · exact SafeR.skip h
+    · exact SafeR.ret (h.timerAdd_fst q d sig hs) _ _
   | resume q sig =>
     simp only [Sim.execCmd]
     split
